@@ -576,6 +576,124 @@ def marker_collision_cases(prefix, kinds=("ovl_mm", "ovl_sub", "ovl_pp")):
     return cases
 
 
+def deleted_target_cases(prefix, kinds=("ovl_mm", "ovl_sub", "ovl_mmm", "alt_ovl")):
+    """every operation on an entry that a lower layer holds and that was REMOVED through the overlay (a file, a
+    directory emptied and removed, a whole subtree): the deletion has to hold against every call, not only against
+    the observers"""
+    rng = random.Random(23)
+    cases = []
+    ops1 = ["exists", "metadata", "isfile", "isdir", "readdir", "openfile", "appendfile", "createfile", "createdir", "removefile",
+            "removedir", "removedirall", "readtostring", "walkdir", "setmtime"]
+    for kind in kinds:
+        for victim in ("file", "nested_file", "subtree"):
+            for opk in ops1 + ["copyfile_from", "movefile_from", "copyfile_onto", "copydir_from"]:
+                c = vfx.Case("%s_deleted_%s_%s_%s" % (prefix, kind, victim, opk))
+                g = build_config(c, kind, rng)
+                c.cfg = g
+                t = g.target
+                lo, sub = g.prepop[0]
+                base = sub[1:] + "/" if sub else ""
+                c.op("createdirall", vfx.ps(lo, base + "d/e"))
+                write_file(c, lo, base + "f", b"lower f")
+                write_file(c, lo, base + "d/g", b"lower g")
+                write_file(c, lo, base + "d/e/h", b"lower h")
+                write_file(c, lo, base + "keep", b"kept")
+                c.op("snap", t)
+                c.first_snap = c.nops - 1
+                if victim == "file":
+                    c.op("removefile", vfx.ps(t, "f")); tp = "f"
+                elif victim == "nested_file":
+                    c.op("removefile", vfx.ps(t, "d/g")); tp = "d/g"
+                else:
+                    c.op("removedirall", vfx.ps(t, "d")); tp = "d/e/h" if opk in ("appendfile", "openfile", "readtostring", "copyfile_from", "movefile_from") else "d"
+                c.op("snap", t)
+                if opk in ("createfile", "appendfile"):
+                    h = c.op(opk, vfx.ps(t, tp)); c.op("hwrite", h, vfx.hexs(b"NEW")); c.op("hdrop", h)
+                elif opk == "openfile":
+                    h = c.op(opk, vfx.ps(t, tp)); c.op("hreadtoend", h); c.op("hdrop", h)
+                elif opk == "setmtime":
+                    c.op(opk, vfx.ps(t, tp), TIMES[1])
+                elif opk == "copyfile_from":
+                    c.op("copyfile", vfx.ps(t, tp), vfx.ps(t, "zz"))
+                elif opk == "movefile_from":
+                    c.op("movefile", vfx.ps(t, tp), vfx.ps(t, "zz"))
+                elif opk == "copyfile_onto":
+                    c.op("copyfile", vfx.ps(t, "keep"), vfx.ps(t, tp))
+                elif opk == "copydir_from":
+                    c.op("copydir", vfx.ps(t, "d"), vfx.ps(t, "zz"))
+                else:
+                    c.op(opk, vfx.ps(t, tp))
+                c.op("snap", t)
+                c.op("probe", vfx.ps(t, tp))
+                for w in g.watch:
+                    c.op("snap", w)
+                cases.append(c)
+    return cases
+
+
+def open_handle_cases(prefix, kinds):
+    """what the world looks like WHILE a write handle is open: a second create_file on an existing file (truncation is
+    visible at once), an append handle opened in that window, observers before anything is published"""
+    rng = random.Random(29)
+    cases = []
+    for kind in kinds:
+        for variant in ("recreate_observe", "recreate_then_append", "append_observe", "two_creates"):
+            c = vfx.Case("%s_openh_%s_%s" % (prefix, kind, variant))
+            g = build_config(c, kind, rng)
+            c.cfg = g
+            t = g.target
+            write_file(c, t, "f", b"first content")
+            c.op("snap", t)
+            c.first_snap = c.nops - 1
+            if variant == "append_observe":
+                h = c.op("appendfile", vfx.ps(t, "f"))
+            else:
+                h = c.op("createfile", vfx.ps(t, "f"))
+            c.op("metadata", vfx.ps(t, "f")); c.op("readtostring", vfx.ps(t, "f")); c.op("snap", t)
+            if variant == "recreate_then_append":
+                h2 = c.op("appendfile", vfx.ps(t, "f")); c.op("hwrite", h2, vfx.hexs(b"tail")); c.op("hdrop", h2); c.op("snap", t)
+            if variant == "two_creates":
+                h2 = c.op("createfile", vfx.ps(t, "f")); c.op("hwrite", h2, vfx.hexs(b"second")); c.op("hdrop", h2); c.op("snap", t)
+            c.op("hwrite", h, vfx.hexs(b"new"))
+            c.op("metadata", vfx.ps(t, "f"))
+            c.op("hdrop", h)
+            c.op("snap", t)
+            c.op("readtostring", vfx.ps(t, "f"))
+            cases.append(c)
+    return cases
+
+
+def dotted_name_cases(prefix, kinds):
+    """names with dots in every position - 'a..b', '..x', 'x..', '...', 'a.', '.a' - as entries (not as path
+    syntax): every call on them through the adapter, and on the directory that holds them"""
+    rng = random.Random(31)
+    cases = []
+    names = ["a..b", "..x", "x..", "...", "a.", ".a", "a...b", "d..d"]
+    for kind in kinds:
+        c = vfx.Case("%s_dotted_%s" % (prefix, kind))
+        g = build_config(c, kind, rng)
+        c.cfg = g
+        t = g.target
+        for n in names:
+            write_file(c, t, n, n.encode())
+        c.op("createdir", vfx.ps(t, "d..d"))
+        write_file(c, t, "d..d/in..ner", b"inner")
+        c.op("snap", t)
+        c.first_snap = c.nops - 1
+        for n in names + ["d..d/in..ner"]:
+            c.op("exists", vfx.ps(t, n)); c.op("metadata", vfx.ps(t, n)); c.op("readtostring", vfx.ps(t, n))
+        c.op("readdir", "%d:" % t); c.op("readdir", vfx.ps(t, "d..d")); c.op("walkdir", "%d:" % t)
+        h = c.op("appendfile", vfx.ps(t, "a..b")); c.op("hwrite", h, vfx.hexs(b"+")); c.op("hdrop", h)
+        c.op("copyfile", vfx.ps(t, "..x"), vfx.ps(t, "y..y"))
+        c.op("removefile", vfx.ps(t, "x.."))
+        c.op("removedirall", vfx.ps(t, "d..d"))
+        c.op("snap", t)
+        for w in g.watch:
+            c.op("snap", w)
+        cases.append(c)
+    return cases
+
+
 def reader_seek_cases(prefix, kinds, rng=None):
     """read handles driven to and over the edges: relative seeks before the start, to and past the end, reads there"""
     rng = rng or random.Random(13)
